@@ -431,12 +431,14 @@ class ColorValue(Value):
                         raw.append(item.value.value)
                         check += 'N'
                     elif type_ == Value.PERCENTAGE:
+                        # (a literal too long for a float is far out of range)
+                        pc = min(max(item.value.value, -(10**9)), 10**9)
                         if HSL:
                             # save as percentage fraction
-                            raw.append(item.value.value / 100.0)
+                            raw.append(pc / 100.0)
                         else:
                             # save as real value of percentage of 255
-                            raw.append(int(255 * item.value.value / 100))
+                            raw.append(int(255 * pc / 100))
                         check += 'P'
 
                 if len(raw) not in (3, 4):
@@ -451,7 +453,7 @@ class ColorValue(Value):
                 if HSL:
                     # convert to rgb
                     # h is 360 based (circle)
-                    h, s, l_ = raw[0] / 360.0, raw[1], raw[2]
+                    h, s, l_ = (raw[0] % 360) / 360.0, raw[1], raw[2]
                     # ORDER h l s !!!
                     r, g, b = colorsys.hls_to_rgb(h, l_, s)
                     # back to 255 based
